@@ -25,10 +25,24 @@ func (f *frame) ghostsWrittenIn(li *loopInfo) map[string]bool {
 					}
 				}
 			}
+			if cc.StaticCallee() == nil {
+				if _, isB := cc.Value.(*ssa.Builtin); !isB {
+					// dynamically dispatched call in the loop body
+					for _, h := range f.c.modsOfDynamic(f.fn, cc).list() {
+						if len(h) > 6 && h[:6] == "ghost$" {
+							out[h[6:]] = true
+						}
+					}
+				}
+			}
 			if callee := cc.StaticCallee(); callee != nil {
 				// transitively: ghosts assigned by contracts of functions the callee reaches
+				var keep map[string]bool
+				if f.c.specOf(callee) == nil {
+					keep = f.asyncBoundary(callee)
+				}
 				for _, h := range f.c.modsOf(callee).list() {
-					if len(h) > 6 && h[:6] == "ghost$" {
+					if len(h) > 6 && h[:6] == "ghost$" && !keep[h[6:]] {
 						out[h[6:]] = true
 					}
 				}
